@@ -126,6 +126,133 @@ def dispatch(loader):
 
 TASKS = [StructTask("constructors", constructors), StructTask("attr_dict-save-load", attr_dict_and_load, textual=True), StructTask("reader-dispatch", dispatch)]
 
+# ---------------------------------------------------------------------------------------------------------------------
+# the type-dispatching reader, Settings.save and Settings.load on the executed bodies (json / the file are opaque): which class is instantiated for which
+# stored discriminator, that the object then loads the same file, that save hands json exactly attr_dict, and that load assigns every stored entry.
+import z3
+from pyvc.core import I, R, B, FuncV, ModV, DictV, StrV, Tup, NONE, ClsV, ORef, Undecided, lit
+from pyvc.contract import Contract, FunctionTask, sym_obj
+
+_CLASSES = ("PsdPreProcessingSettings", "HvsrPreProcessingSettings", "PsdProcessingSettings", "HvsrAzimuthalProcessingSettings", "HvsrDiffuseFieldProcessingSettings",
+            "HvsrTraditionalRotDppProcessingSettings", "HvsrTraditionalSingleAzimuthProcessingSettings", "HvsrTraditionalProcessingSettings")
+
+
+def _settings_cls(name):
+    c = ClsV(name)
+    c.ctor = lambda ex, st, a, k, n_, _n=name: ex.alloc_obj(st, _n, {"__loaded": NONE, "__defaults": z3.BoolVal(not a and not k)}, "fresh")
+    return c
+
+
+def _m_open15(ex, st, args, kw, node):
+    return sym_obj(ex, st, "File", {"name": args[0], "mode": args[1]}, owner="fresh")
+
+
+def _m_load_method(ex, st, args, kw, node):
+    st.heap[args[0].oid].fields["__loaded"] = args[1]
+    return NONE
+
+
+def _reader_inputs(content):
+    def mk(ex, st):
+        st.env["fname"] = StrV("<fname>")
+        st.env["__content"] = DictV({k: StrV(v) for k, v in content.items()})
+        return []
+    return mk
+
+
+def _is_new(ex, st, a, k, n_):
+    o, cls = a[0], a[1].s
+    if not isinstance(o, ORef):
+        return z3.BoolVal(False)
+    d = st.heap[o.oid]
+    return z3.And(z3.BoolVal(d.cls == cls and d.owner == "fresh" and d.fields["__loaded"] is st.env["fname"]), d.fields["__defaults"])
+
+
+_READER_ENV = dict({c: _settings_cls(c) for c in _CLASSES}, open=FuncV(_m_open15, "open"),
+                   json=ModV("json", {"load": FuncV(lambda ex, st, a, k, n_: st.env["__content"], "json.load")}))
+_READER_REG = {f"{c}.load": FuncV(_m_load_method, "load") for c in _CLASSES}
+_CASES = [({"preprocessing_method": "psd"}, "PsdPreProcessingSettings"), ({"preprocessing_method": "hvsr"}, "HvsrPreProcessingSettings"),
+          ({"processing_method": "psd"}, "PsdProcessingSettings"), ({"processing_method": "azimuthal"}, "HvsrAzimuthalProcessingSettings"),
+          ({"processing_method": "diffuse_field"}, "HvsrDiffuseFieldProcessingSettings"),
+          ({"processing_method": "traditional", "method_to_combine_horizontals": "rotdpp"}, "HvsrTraditionalRotDppProcessingSettings"),
+          ({"processing_method": "traditional", "method_to_combine_horizontals": "single_azimuth"}, "HvsrTraditionalSingleAzimuthProcessingSettings"),
+          ({"processing_method": "traditional", "method_to_combine_horizontals": "geometric_mean"}, "HvsrTraditionalProcessingSettings"),
+          ({"processing_method": "traditional", "method_to_combine_horizontals": "squared_average"}, "HvsrTraditionalProcessingSettings"),
+          ({"preprocessing_method": "other"}, None), ({"processing_method": "other"}, None), ({"hvsrpy_version": "x"}, None)]
+for _content, _cls in _CASES:
+    _lab = ",".join(f"{k}={v}" for k, v in _content.items())
+    if _cls is None:
+        _c = Contract(qual="hvsrpy.object_io.read_settings_object_from_file", params=["fname"], make_inputs=_reader_inputs(_content), raises={"NotImplementedError": "True"},
+                      ensures=[], modifies=[])
+    else:
+        _c = Contract(qual="hvsrpy.object_io.read_settings_object_from_file", params=["fname"], ghost={"is_new": FuncV(_is_new, "is_new")}, make_inputs=_reader_inputs(_content),
+                      ensures=[f"is_new(result, '{_cls}')"], modifies=[],
+                      notes="a new default-constructed object of the class the stored discriminator names, which then loads the same file")
+    TASKS.append(FunctionTask(_c, module_env=_READER_ENV, registry=_READER_REG, label=f"hvsrpy.object_io.read_settings_object_from_file[{_lab}]",
+                              clauses=["the dispatching reader yields an object of the class that was saved"]))
+
+
+# Settings.save / Settings.load
+def _m_dump15(ex, st, args, kw, node):
+    st.env["__dumped"] = Tup((args[0], args[1]))
+    return NONE
+
+
+_ATTR_DICT = Contract(qual="hvsrpy.settings.Settings.attr_dict", params=["self"], ensures=[], modifies=[], is_property=True,
+                      make_result=lambda ex, st, env: DictV({"<attr_dict of>": env["self"]}))
+
+
+def _save_inputs15(ex, st):
+    st.env["self"] = sym_obj(ex, st, "Settings", {}, owner="param:self")
+    st.env["fname"] = StrV("<fname>")
+    return []
+
+
+SAVE15 = Contract(qual="hvsrpy.settings.Settings.save", params=["self", "fname"], make_inputs=_save_inputs15, modifies=[],
+                  ghost={"dumped": FuncV(lambda ex, st, a, k, n_: z3.BoolVal(isinstance(st.env.get("__dumped"), Tup) and isinstance(st.env["__dumped"][0], DictV)
+                                                                               and st.env["__dumped"][0].items.get("<attr_dict of>") is st.env["self"]
+                                                                               and st.heap[st.env["__dumped"][1].oid].fields["name"] is st.env["fname"]
+                                                                               and st.heap[st.env["__dumped"][1].oid].fields["mode"].s == "w"), "dumped")},
+                  ensures=["dumped()"], notes="json.dump receives exactly self.attr_dict and the file opened for writing under the name given")
+SAVE15.ghost_state = ("__dumped",)
+TASKS.append(FunctionTask(SAVE15, module_env={"open": FuncV(_m_open15, "open"), "json": ModV("json", {"dump": FuncV(_m_dump15, "json.dump")})},
+                          registry={"Settings.attr_dict": _ATTR_DICT}, clauses=["save writes the attribute dictionary"]))
+V1, V2 = z3.Real("stored_value_1"), z3.Real("stored_value_2")
+
+
+def _m_setattr(ex, st, args, kw, node):
+    o, name, val = args
+    if not isinstance(name, StrV) or name.s.startswith("<"):
+        raise Undecided("setattr with a name that is not concrete")
+    d = st.heap[o.oid]
+    if d.owner != "fresh":
+        st.writes.append((d.owner, f"{d.cls}.{name.s}", getattr(node, "lineno", 0)))
+    d.fields[name.s] = val
+    return NONE
+
+
+def _m_items(ex, st, args, kw, node):
+    return Tup(Tup((StrV(k), v)) for k, v in args[0].items.items())
+
+
+def _load_inputs15(ex, st):
+    st.env["self"] = sym_obj(ex, st, "Settings", {"alpha": z3.Real("old_alpha"), "beta": z3.Real("old_beta"), "gamma": z3.Real("old_gamma"), "delta": z3.Real("old_delta")}, owner="param:self")
+    st.env["fname"] = StrV("<fname>")
+    st.env["__content"] = DictV({"alpha": V1, "beta": V2, "nested": DictV({"k": V1}), "delta": NONE})
+    return []
+
+
+from pyvc import npmodel as _npm15
+_npm15.DICT_METHODS.setdefault("items", _m_items)
+LOAD15 = Contract(qual="hvsrpy.settings.Settings.load", params=["self", "fname"], make_inputs=_load_inputs15, modifies=["param:self"],
+                  ghost={"V1": V1, "V2": V2, "is_content": FuncV(lambda ex, st, a, k, n_: z3.BoolVal(a[0] is st.env["__content"].items["nested"]), "is_content")},
+                  ensures=["self.alpha == V1 and self.beta == V2", "is_content(self.nested)", "self.delta is None", "self.gamma == old(self.gamma)"],
+                  notes="every entry of the stored dictionary (here two numbers, a nested dictionary and a null) becomes the attribute of that name; attributes the file does not "
+                        "mention keep their value")
+TASKS.append(FunctionTask(LOAD15, module_env={"open": FuncV(_m_open15, "open"), "json": ModV("json", {"load": FuncV(lambda ex, st, a, k, n_: st.env["__content"], "json.load")}),
+                                               "setattr": FuncV(_m_setattr, "setattr")},
+                          clauses=["load assigns every stored entry"]))
+
 META = dict(
     level="other",
     explanation="structural obligations on the AST: every settings constructor assigns exactly the attributes it lists in attrs, stores every mutable "
